@@ -158,6 +158,7 @@ std::string ledger_describe(size_t max = 4); // sizes + serials, never addresses
 uint64_t ledger_mark();             // serial watermark: blocks allocated later have serial > mark
 size_t ledger_live_since(uint64_t mark);
 bool ledger_is_live(const void *p);
+bool ledger_covers(const void *p);   // p lies inside some live SUT-allocated block
 void pend(const char *sig, const char *fmt, ...) __attribute__((format(printf, 2, 3)));
 void check_pending();
 
